@@ -32,7 +32,8 @@ TRUSTED = [
 ASSUMPTIONS = [
     "closure cells keep their kind (literal / list / column / table / function) per code object over the history",
     "the lambda cache does not evict (LRU size 1000) within a history",
-    "globals of the lambda (tables, select) are constant",
+    "a code object determines the body of the lambda INCLUDING the objects its global names refer to (false for two textually "
+    "identical lambdas on the same line of two modules: finding C17-equal-code-objects-share-cache); globals are constant",
 ]
 LEVEL_TEXT = (
     "Coq proof over an executable model of the lambda machinery: for every history of '+=' chains of lambdas with arbitrary "
@@ -519,17 +520,45 @@ def _classes(ns, c):
 _LAST = {}
 
 
+def _impl_twin(c):
+    """two modules with the textually identical lambda on the same line, each with its own global `t`"""
+    from sqlalchemy import lambda_stmt, select
+
+    env = _db()
+    _ENV["n"] = _ENV.get("n", 0) + 1
+    src = "\n" * (40 * _ENV["n"]) + "def mk(v):\n    return lambda: select(t.c.id).where(t.c.x > v)\n"
+    nsA = {"select": select, "t": env["t"]}
+    nsB = {"select": select, "t": env["u"]}
+    exec(compile(src, "module_a_%d.py" % _ENV["n"], "exec"), nsA)
+    exec(compile(src, "module_b_%d.py" % _ENV["n"], "exec"), nsB)
+    checks = []
+    for k, ns in enumerate((nsA, nsB)):
+        fn = ns["mk"](1)
+        with env["e"].connect() as conn:
+            lrows = sorted(tuple(r) for r in conn.execute(lambda_stmt(fn)))
+            drows = sorted(tuple(r) for r in conn.execute(fn()))
+        lsql = " ".join(str(lambda_stmt(ns["mk"](1)).compile(env["e"], compile_kwargs={"literal_binds": True})).split())
+        dsql = " ".join(str(fn().compile(env["e"], compile_kwargs={"literal_binds": True})).split())
+        checks.append({"k": k, "lrows": lrows, "drows": drows, "lsql": lsql, "dsql": dsql, "direct_ok": True})
+    _LAST["checks"] = checks
+    _LAST["id"] = id(c)
+    return []
+
+
 def impl(c):
     import sqlalchemy
     from sqlalchemy import exc, lambda_stmt, select
 
+    if c.get("twin_module"):
+        return _impl_twin(c)
     env = _db()
     ns = {"t": env["t"], "u": env["u"], "select": select, "lambda_stmt": lambda_stmt}
-    # code objects compare BY VALUE (bytecode, names, file name, line): AnalyzedCode._fns and the lambda cache are keyed by
-    # them, so two cases with textually identical lambdas would share analyses and skeletons.  A per-case file name keeps
-    # every case a fresh process as far as the lambda machinery is concerned (the model starts from the empty state).
+    # code objects compare BY VALUE and the comparison ignores co_filename: AnalyzedCode._fns and the lambda cache are keyed
+    # by them, so two cases with textually identical lambdas on the same line would share analyses and skeletons (this is
+    # finding C17-equal-code-objects-share-cache).  A per-case line offset makes every case a fresh process as far as the
+    # lambda machinery is concerned (the model starts from the empty state).
     _ENV["n"] = _ENV.get("n", 0) + 1
-    exec(compile(_source(c), "<c17 case %d>" % _ENV["n"], "exec"), ns)
+    exec(compile("\n" * (40 * _ENV["n"]) + _source(c), "<c17 case %d>" % _ENV["n"], "exec"), ns)
     heads = set(c["heads"])
     results, checks = [], []
     for k, chain in enumerate(c["in"][2]):
@@ -617,6 +646,8 @@ def _short(r):
 
 
 def match_finding(c, what):
+    if c.get("twin_module"):
+        return "C17-equal-code-objects-share-cache"
     m = _re.match(r"inv=(\d+):", what)
     if not m:
         return None
